@@ -694,4 +694,36 @@ theorem translateE_count (k : Kind) (e4 e3 e2 e1 : Word) (va : Nat) :
   repeat' split
   all_goals exact ⟨by simp, by simp⟩
 
+/-! ### For the non-recursive mappers the hypothesis is also necessary -/
+
+theorem ntK_nonrec (e : Word) :
+    ntK ⟨false⟩ e = if bitPS e then .error .hugePage
+                    else if bitP e then .ok (tableAddr e) else .error .notMapped := rfl
+
+theorem alignDown_1G_lit (e : Word) : alignDownW (Pte.addr e) 1073741824 = addr1G e := alignDown_1G e
+theorem alignDown_2M_lit (e : Word) : alignDownW (Pte.addr e) 2097152 = addr2M e := alignDown_2M e
+
+theorem alignDown_1G_lit' (e : Word) : alignDownW (tableAddr e) 1073741824 = addr1G e := alignDown_1G e
+theorem alignDown_2M_lit' (e : Word) : alignDownW (tableAddr e) 2097152 = addr2M e := alignDown_2M e
+
+theorem translateE_nonrec_iff (e4 e3 e2 e1 : Word) (va : Nat) :
+    (translateE ⟨false⟩ e4 e3 e2 e1 va).1 = renderE e4 e3 e2 e1 va ↔
+      (bitPS e4 = false ∧
+       (bitP e4 = true → bitPS e3 = true → bitP e3 = true) ∧
+       (bitP e4 = true → bitP e3 = true → bitPS e3 = false → bitPS e2 = true → bitP e2 = true) ∧
+       (bitP e4 = true → bitP e3 = true → bitPS e3 = false → bitP e2 = true → bitPS e2 = false →
+          e1 ≠ 0#64 → bitP e1 = true)) := by
+  unfold translateE renderE walkE
+  simp only [ntK_nonrec]
+  by_cases h0 : e1 = 0#64
+  · subst h0
+    cases hP4 : bitP e4 <;> cases hPS4 : bitPS e4 <;> cases hP3 : bitP e3 <;> cases hPS3 : bitPS e3 <;>
+      cases hP2 : bitP e2 <;> cases hPS2 : bitPS e2 <;>
+      simp [leafE, hPS3, hPS2, bitP_zero, Pte.isUnused, alignDown_1G_lit, alignDown_2M_lit]
+  · have hu : Pte.isUnused e1 = false := (isUnused_eq_false_iff e1).2 h0
+    cases hP4 : bitP e4 <;> cases hPS4 : bitPS e4 <;> cases hP3 : bitP e3 <;> cases hPS3 : bitPS e3 <;>
+      cases hP2 : bitP e2 <;> cases hPS2 : bitPS e2 <;> cases hP1 : bitP e1 <;>
+      simp [leafE, hPS3, hPS2, hu, h0, addr_eq_tableAddr, alignDown_1G_lit',
+        alignDown_2M_lit']
+
 end X86
